@@ -19,7 +19,9 @@ RULE = ('histories of 3-10 operations (copy, copy_like, copy_thermal_condition, 
         'container, every row vector, the phase box and the thermal condition).  Every final stream is also pickled for real '
         'and compared with the in-process reduce.  Flows are additionally read through the keyed access imol[phase, ID] after every '
         'operation (so the index memo is filled before and used after every phase expansion) and through the mass view imass '
-        '(operations read_mass / set_mass create and write through the view; the model predicts which rows the view wraps).  non-trivial = at least one operation succeeded and (a mutation changed an '
+        '(operations read_mass / set_mass create and write through the view; the model predicts which rows the view wraps); H is read '
+        'through every handle (read_H fills the property memo; families with proxies around undone state changes, and with '
+        'other-package sources holding the same chemicals in different dict orders).  non-trivial = at least one operation succeeded and (a mutation changed an '
         'observable or two streams share a cell); distinct = distinct case hash')
 ASSUMPTIONS = ['float rounding is not modelled: values compared to 1e-9 relative; inputs are dyadic so copies are exact',
                'links are only generated between streams of the same property package and, for MultiStreams, the same phase tuple '
@@ -34,7 +36,11 @@ ASSUMPTIONS = ['float rounding is not modelled: values compared to 1e-9 relative
                'of _data_cache only the mass view is modelled (which dict an indexer holds, which rows the view wraps)']
 TRUSTED = ['model coq/C13/Model.v is hand-written from thermosteam/_stream.py, _multi_stream.py, indexer.py, _phase.py, '
            '_thermal_condition.py; SparseVector rows are dense Q lists; tie = correspondence check on values and aliasing',
-           'pickle of Reaction / Chemical / Thermo is executed, not modelled (harness compares observable state)']
+           'pickle of Reaction / Chemical / Thermo is executed, not modelled (harness compares observable state)',
+           'the per-phase views ms[phase] (LockedPhase) are executed, not modelled: copies / flow proxies / pickles of a view are '
+           'checked against the property clauses on the real objects (view_checks)',
+           'the property memo (_property_cache, _property_cache_key) is modelled by its specification: H is a function of the '
+           'current state (64 (T - 298.15) * total flow for the stub packages); read_H operations fill and use the memo']
 
 # ------------------------------------------------------------------ environment
 CHEMS = ['A_', 'B_', 'C_', 'D_']
@@ -86,12 +92,12 @@ def gen_stream(rng, k, pkg=None):
 
 OPS = ['copy', 'copy_like', 'copy_like', 'copy_like', 'copy_like', 'copy_tc', 'copy_phase', 'flow_proxy', 'proxy',
        'link', 'link', 'unlink', 'unlink', 'set_flow', 'set_flow', 'set_T', 'set_P', 'set_phase', 'set_phases',
-       'scale', 'empty', 'reduce', 'read_mass', 'read_mass', 'set_mass']
+       'scale', 'empty', 'reduce', 'read_mass', 'read_mass', 'set_mass', 'read_H', 'read_H']
 
 def gen_op(rng):
     o = rng.choice(OPS)
     i, j = rng.randrange(64), rng.randrange(64)
-    if o in ('copy', 'flow_proxy', 'proxy', 'unlink', 'empty', 'reduce', 'read_mass'):
+    if o in ('copy', 'flow_proxy', 'proxy', 'unlink', 'empty', 'reduce', 'read_mass', 'read_H'):
         return [o, i]
     if o == 'set_mass':
         return [o, i, rng.randrange(8), rng.randrange(8), rng.choice([0., 16., 32., 64., 8., 4., 128.])]
@@ -169,10 +175,60 @@ def view_cases(rng, n):
         cases.append({'streams': [a, b, c], 'ops': ops, 'rx': {'a': 1., 'b': 2., 'X': 0.5}})
     return cases
 
+def memo_cases(rng, n):
+    """H read through a stream and its proxy / flow proxy / copy / link partner around a state change that is undone
+    afterwards (A-B-A patterns: a memo that is stale for one handle shows up when that handle reads first after the return)"""
+    cases = []
+    for _ in range(n):
+        a = gen_stream(rng, 0); a.update(kind='S', phase=rng.choice(['l', 'g']), flow=gen_vec(rng, len(PKGS[a['pkg']])))
+        a['flow'][0] = rng.choice([1., 2., 4.]); a.pop('phases', None); a.pop('flows', None)
+        b = gen_stream(rng, 1, a['pkg'])
+        ops = [[rng.choice(['proxy', 'proxy', 'proxy', 'flow_proxy', 'copy']), 0]]
+        def change():
+            k = rng.randrange(5)
+            if k == 0:
+                T2 = rng.choice([t for t in TS if t != a['T']]); return ['set_T', rng.choice([0, 2]), T2], ['set_T', rng.choice([0, 2]), a['T']]
+            if k == 1:
+                P2 = rng.choice([x for x in PS + [1e5] if x != a['P']]); return ['set_P', rng.choice([0, 2]), P2], ['set_P', rng.choice([0, 2]), a['P']]
+            if k == 2:
+                c = rng.randrange(len(a['flow'])); return ['set_flow', rng.choice([0, 2]), 0, c, a['flow'][c] + rng.choice([1., 2.])], ['set_flow', rng.choice([0, 2]), 0, c, a['flow'][c]]
+            if k == 3:
+                return ['set_phase', rng.choice([0, 2]), 's'], ['set_phase', rng.choice([0, 2]), a['phase']]
+            return ['scale', rng.choice([0, 2]), 2.], ['scale', rng.choice([0, 2]), 0.5]
+        for _ in range(rng.randint(1, 2)):
+            h1, h2 = rng.choice([(0, 2), (2, 0), (0, 0), (2, 2)])
+            there, back = change()
+            ops += [['read_H', h1], ['read_H', h2], there, ['read_H', rng.choice([h1, h2])], back, ['read_H', rng.choice([h1, h2])],
+                    ['read_H', rng.choice([0, 2])]]
+        if rng.random() < 0.3: ops.insert(rng.randrange(1, len(ops)), rng.choice([['unlink', 0], ['copy_like', 0, 1], ['link', 0, 1, True, True, True]]))
+        cases.append({'streams': [a, b], 'ops': ops, 'rx': {'a': 1., 'b': 2., 'X': 0.5}})
+    return cases
+
+def order_cases(rng, n):
+    """copy_like between packages where the sources hold the same chemicals entered in different orders (entries zeroed and
+    set again move to the end of the sparse dict), so that index_overlap is asked the same question in several orders"""
+    cases = []
+    for _ in range(n):
+        pa = rng.randrange(2); pb = 1 - pa
+        a = gen_stream(rng, 0, pa); b = gen_stream(rng, 1, pb); c = gen_stream(rng, 2, pb)
+        common = [k for k in range(len(PKGS[pb])) if PKGS[pb][k] in PKGS[pa]]
+        for s in (b, c):
+            vec = [0.] * len(PKGS[pb])
+            for k in common[:rng.randint(2, len(common))]: vec[k] = rng.choice([1., 2., 3., 4., 0.5, 8.])
+            s.update(kind='S', phase=rng.choice(SINGLE_PHASES), flow=vec); s.pop('phases', None); s.pop('flows', None)
+        ops = [['copy_like', 0, 1]]
+        for _ in range(rng.randint(1, 3)):
+            j = rng.choice([1, 2]); k = rng.choice(common)
+            ops += [['set_flow', j, 0, k, 0.], ['set_flow', j, 0, k, rng.choice([5., 6., 7.])], ['copy_like', 0, j]]
+        ops.append(['copy_like', rng.choice([0, 3]) if False else 0, rng.choice([1, 2])])
+        cases.append({'streams': [a, b, c], 'ops': ops, 'rx': {'a': 1., 'b': 2., 'X': 0.5}})
+    return cases
+
 def gen_cases(rng, tier):
     n = 220 if tier == 'quick' else 3500
     m = 80 if tier == 'quick' else 1200
-    return [gen_case(rng) for _ in range(n)] + targeted_cases(rng, m) + view_cases(rng, m)
+    return ([gen_case(rng) for _ in range(n)] + targeted_cases(rng, m) + view_cases(rng, m)
+            + memo_cases(rng, m // 2) + order_cases(rng, m // 2))
 
 # ------------------------------------------------------------------ implementation side
 def build_stream(spec):
@@ -259,6 +315,43 @@ def mass_phases(s):
     if is_multi(s): return [PH[p] for p in v._phases]
     return [PH.get(v._phase._phase, 7)]
 
+def view_checks(store):
+    """clauses of the property on the per-phase views ms[phase] (LockedPhase) of every final MultiStream: a copy / flow
+    proxy of a view is an ordinary stream (free phase, can be unlinked, accepts copy_like from another phase, pickles),
+    and is independent of / shares with the view what it should.  Executed, not modelled.  Returns failure messages."""
+    tmo = env()['tmo']; msgs = []
+    for k, s in enumerate(store):
+        if not is_multi(s) or inconsistent(s) or not hasattr(s, '_streams') or type(s) is not tmo.MultiStream: continue
+        for p in s._imol._phases:
+            try:
+                v = s[p]
+                other = 'g' if p != 'g' else 'l'
+                snap = lambda x: (x.phase, dict(x._imol.data.dct), float(x.T), float(x.P))
+                before = snap(v)
+                c = v.copy()
+                if snap(c) != before: msgs.append(f'view: copy of stream {k}[{p!r}] differs from the view'); continue
+                c.phase = other
+                if snap(v) != before: msgs.append(f'view: changing the phase of a copy of stream {k}[{p!r}] changed the view')
+                c.unlink()
+                c2 = v.copy()
+                src = tmo.Stream(None, flow=dense(v._imol.data, v._imol._chemicals.size), phase=other, T=311., thermo=s._thermo)
+                src._imol.data[0] = 3.
+                c2.copy_like(src)
+                if (c2.phase, c2.T, dict(c2._imol.data.dct)) != (other, 311., dict(src._imol.data.dct)):
+                    msgs.append(f'view: copy_like onto a copy of stream {k}[{p!r}] did not copy the conditions')
+                fp = v.flow_proxy()
+                if fp._imol.data is not v._imol.data: msgs.append(f'view: flow proxy of stream {k}[{p!r}] does not share the flows')
+                fp.phase = other
+                if v.phase != p: msgs.append(f'view: changing the phase of a flow proxy of stream {k}[{p!r}] changed the view')
+                fp.unlink()
+                c3 = v.copy(); t = pickle.loads(pickle.dumps(c3))
+                t.phase = other; c3.phase = other
+                if (t.phase, dict(t._imol.data.dct), t.T) != (c3.phase, dict(c3._imol.data.dct), c3.T):
+                    msgs.append(f'view: pickled copy of stream {k}[{p!r}] differs from the copy')
+            except Exception as ex:
+                msgs.append(f'view: copy / flow proxy of the phase view {k}[{p!r}] is not an ordinary stream: raised {type(ex).__name__}: {ex}')
+    return msgs[:3]
+
 def touch_keys(store):
     for s in store:
         try: keyed_rows(s)
@@ -283,6 +376,13 @@ def would_break_class(s, phases):
     p = s.phase
     return bool(s._imol.data.dct) and not (p in phases or swapcase(p) in phases)
 
+_reads = []
+def h_spec(s):
+    """H of the stub packages as a function of the current state"""
+    im = s._imol
+    rows = im.data.rows if is_multi(s) else [im.data]
+    return 64. * (float(s._thermal_condition._T) - 298.15) * sum(sum(r.dct.values()) for r in rows)
+
 def inconsistent(s):
     """a MultiStream whose SparseArray was re-shaped through another indexer sharing it (rows and phases no longer align)"""
     return is_multi(s) and len(s._imol.data.rows) != len(s._imol._phases)
@@ -293,7 +393,7 @@ def resolve(store, op):
         return ['skip']
     if name in ('set_phase', 'set_phases') and is_multi(store[i]) and not hasattr(store[i], '_streams'):
         return ['skip']   # a proxy of a MultiStream has no _streams: its phase setter raises half-way
-    if name in ('copy', 'flow_proxy', 'proxy', 'unlink', 'empty', 'reduce', 'read_mass'):
+    if name in ('copy', 'flow_proxy', 'proxy', 'unlink', 'empty', 'reduce', 'read_mass', 'read_H'):
         return [name, i]
     if name == 'set_mass':
         s = store[i]
@@ -347,6 +447,8 @@ def apply_op(store, rop):
         f, args = s.__reduce__()
         return f(*args)
     if name == 'read_mass': s.imass; return None
+    if name == 'read_H':
+        _reads.append(float(s.H) if not inconsistent(s) else h_spec(s)); return None
     if name == 'set_mass':
         if is_multi(s): s.imass.data[rop[2], rop[3]] = rop[4]
         else: s.imass.data[rop[3]] = rop[4]
@@ -398,14 +500,14 @@ def aux_pickles(rx):
 def run_impl(case):
     env()
     out = {'new': [], 'ops': [], 'res': []}
-    store = []
+    store = []; del _reads[:]
     for spec in case['streams']:
         try:
             store.append(build_stream(spec)); out['new'].append('ok')
         except Exception as ex:
             out['new'].append(ERR.get(type(ex).__name__, 'EOther'))
     if not store:
-        out['final'] = []; out['pickle_ok'] = True; out['aux'] = []; out['keyed'] = []; out['mass'] = []; out['mphases'] = []
+        out['final'] = []; out['pickle_ok'] = True; out['aux'] = []; out['keyed'] = []; out['mass'] = []; out['mphases'] = []; out['H'] = []; out['views'] = []; out['reads'] = []
         return out
     touch_keys(store)
     for op in case['ops']:
@@ -424,6 +526,10 @@ def run_impl(case):
     out['keyed'] = [keyed_rows(s) for s in store]
     out['mass'] = [mass_rows(s) for s in store]
     out['mphases'] = [mass_phases(s) for s in store]
+    # (an inconsistent MultiStream, see ASSUMPTIONS, is not read through H: xH zips phases with rows)
+    out['reads'] = list(_reads)
+    out['H'] = [float(s.H) if not inconsistent(s) else h_spec(s) for s in store]
+    out['views'] = view_checks(store)
     # real pickling of every final stream, compared with the in-process reduce (which the model predicts)
     ok = True; notes = []
     for k, s in enumerate(store):
@@ -485,6 +591,7 @@ def cop(o):
     if n == 'set_phases': return f'(OSetPhases {cnat(o[1])} {clist(o[2], cph)})'
     if n == 'scale': return f'(OScale {cnat(o[1])} {q(o[2])})'
     if n == 'read_mass': return f'(OReadMass {cnat(o[1])})'
+    if n == 'read_H': return f'(OReadH {cnat(o[1])})'
     if n == 'set_mass': return f'(OSetMass {cnat(o[1])} {cnat(o[2])} {cnat(o[3])} {q(o[4])})'
     raise ValueError(n)
 
@@ -501,11 +608,11 @@ def coq_case(case, out):
         raise ValueError('object outside the model: class/indexer or package mismatch')
     res = clist([cerr(r) for r in out['new'] + out['res']])
     final = clist([csnap(v) for v in out['final']])
-    side = out['pickle_ok'] and not out['aux']
+    side = out['pickle_ok'] and not out['aux'] and not out['views']
     mass = clist([clist(m, qlist) for m in out['mass']])
     keyed = clist([clist(m, qlist) for m in out['keyed']])
     mph = clist([clist(m, cnat) for m in out['mphases']])
-    return f'(run_eqb {model_ops(case, out)} {res} {final} {mass} {keyed} {mph} && {cbool(side)})'
+    return f'(run_eqb {model_ops(case, out)} {res} {final} {mass} {keyed} {mph} {qlist(out["H"])} {qlist(out["reads"])} && {cbool(side)})'
 
 def coq_show(case, out):
     return f'(run_show {model_ops(case, out)})'
@@ -611,6 +718,16 @@ def views_agree(store, name):
             return f'{name}: the mass view of stream {k} has phases {s.imass._phases}, the stream {s._imol._phases}'
     return None
 
+def h_check(store, k, name):
+    s = store[k]; v = values(s)
+    if not v['cls_ok'] or inconsistent(s) or any(p > 4 for p in v['phases']): return None
+    want_H = h_spec(s); got_H = float(s.H)
+    if abs(got_H - want_H) > 1e-9 * max(1., abs(got_H), abs(want_H)):
+        twins = [j for j, t in enumerate(store) if t is not s and getattr(t, '_property_cache', None) is s._property_cache]
+        return (f'{name}: H of stream {k} is {got_H}, a fresh stream in the same state gives {want_H}'
+                + (f' (it shares its property memo with stream {twins[0]}: a proxy does not see the same thermal data)' if twins else ''))
+    return None
+
 def oracle(case):
     env()
     store = []
@@ -632,6 +749,10 @@ def oracle(case):
         fps = [footprint_ids(s) for s in store]
         separate = [k for k in range(len(store)) if k != i and not (fps[k] & fps[i])]
         src_before = cond(store[rop[2]]) if name == 'copy_like' else None
+        if name == 'read_H':
+            msg = h_check(store, i, name)
+            if msg: return msg
+            continue
         try:
             r = apply_op(store, rop)
             raised = None
@@ -640,6 +761,8 @@ def oracle(case):
         if name in ('read_mass', 'set_mass') and raised: return f'{name}: raised {raised}'
         msg = views_agree(store, name)
         if msg: return msg
+        vm = view_checks(store)
+        if vm: return vm[0]
         # frame: whatever happened to the target, streams sharing nothing with it are untouched
         for k in separate:
             if name == 'link' and k == rop[2]:
@@ -711,6 +834,9 @@ def oracle(case):
                     plus_equal(dict(v, multi=False), w, with_id=bool(a._ID))):
                 return f'reduce/from_data: observable state differs: {w} vs {v}'
         if r is not None: store.append(r)
+    for k in reversed(range(len(store))):
+        msg = h_check(store, k, 'final')
+        if msg: return msg
     for k, s in enumerate(store):
         v = values(s)
         if not v['cls_ok'] or inconsistent(s) or any(p > 4 for p in v['phases']): continue
@@ -730,6 +856,8 @@ def finding_key(case, msg):
     head = msg.split(':')[0]
     if head == 'unlink' and 'proxy' in msg: return 'C13:unlink-after-proxy'
     if 'bound to the phase object' in msg: return 'C13:view-phase'
+    if msg.startswith('view:'): return 'C13:phase-view-copy'
+    if ': H of stream' in msg: return 'C13:property-memo'
     if 'mass view' in msg: return 'C13:stale-mass-view'
     if '(phase, ID)' in msg: return 'C13:keyed-access'
     return 'C13:' + head
